@@ -286,9 +286,9 @@ Abort ==
 -----------------------------------------------------------------------------
 (* Bounded environment for the design check.                                        *)
 
-(* A feature whose mask sets Ready is always parsed as mandatory (as resource binding is); *)
-(* "Ready set by a voluntary step" is outside the modelled configurations.                *)
-Entries == {e \in [f : cfg \cup {Unk}, req : BOOLEAN] : (e.f \in cfg /\ "Ready" \in Kind(e.f).mask) => e.req}
+(* Every feature may be advertised as mandatory or as voluntary, also one whose step      *)
+(* reports Ready (resource binding advertised without <required/>).                       *)
+Entries == [f : cfg \cup {Unk}, req : BOOLEAN]
 Lists == UNION {[1..n -> Entries] : n \in 0..MaxList}
 HdrItems == {[k |-> "hdr", ok |-> TRUE, from |-> a, to |-> b] : a \in Addr, b \in Addr}
               \cup {[k |-> "hdr", ok |-> FALSE, from |-> "A", to |-> "A"]}
@@ -338,7 +338,11 @@ C02_NoReadyInClear ==
      => (result = "ok" => "Secure" \in bits)
 (* C04: success only if nothing failed, nothing broke, nothing was cancelled.       *)
 C04_NoSwallow == result = "ok" => ~failed /\ ~broken /\ ~cancelled
-C04_ErrNotReady == result = "err" => "Ready" \notin bits
+(* A failed establishment is not ready - unless a step that was executed successfully on *)
+(* this stream reported Ready itself before the failure (a voluntary feature whose mask   *)
+(* holds Ready: outside the handshakes C04 quantifies over, C01 only asks that such a     *)
+(* session is not REPORTED established, and it is not: the call returns the error).       *)
+C04_ErrNotReady == result = "err" => ("Ready" \notin bits \/ \E f \in negotiated : "Ready" \in Kind(f).mask)
 (* C12c *)
 C12_EstabStable == [][(estab.from # "none" => estab'.from = estab.from) /\ (estab.to # "none" => estab'.to = estab.to)]_vars
 
